@@ -173,6 +173,7 @@ def run_spawner(ck, tree, thorough):
     ids = sandbox.write_ids(ck.scratch.path("ids2"), tree.root)
     rng = ck.rng
     recs = []
+    hung_sessions = []
     nsess = 60 if thorough else 24
     for sidx in range(nsess):
         n = rng.randint(1, 40)
@@ -186,9 +187,19 @@ def run_spawner(ck, tree, thorough):
             cmds.append({"dn": dn, "mid": list(mid), "rcp": list(rcp), "kind": mid_kind(tree.root, mid)})
         if sidx % 4 == 0:     # truncated final command: never completed, so never a command
             stream += spawnrun.mkcmd(rng.randrange(120), b"1/4", b"s@x", b"trunc@h.test")[: rng.randint(1, 12)]
-        r = spawnrun.run_rspawn(tree, ck.scratch.sub("spawn"), stream, {}, ids)
+        r = spawnrun.run_rspawn(tree, ck.scratch.sub("spawn"), stream, {}, ids, timeout=20 if hung_sessions else 60)
+        if r["hung"] and hung_sessions:
+            ck.cov["spawner_sessions_skipped_after_a_confirmed_hang"] = ck.cov.get("spawner_sessions_skipped_after_a_confirmed_hang", 0) + 1
+            continue
         if r["hung"]:
-            raise Infra("qmail-rspawn hung")
+            # a spawner that is still there a minute after the end of its commands: run the session again with twice the time; if
+            # it repeats, what it did answer is judged like any other session (commands without a report are verdicts) - only
+            # a spawner that answered everything and merely failed to leave is reported as infrastructure
+            log("C18: qmail-rspawn did not finish session %d within 60 s; running it again" % sidx)
+            r = spawnrun.run_rspawn(tree, ck.scratch.sub("spawn"), stream, {}, ids, timeout=120)
+            if r["hung"] and len(r["reports"]) >= len(dns):
+                raise Infra("qmail-rspawn hung (twice) although it had answered every command")
+            hung_sessions.append(sidx)
         ranset = {x["rcpt"] for x in r["ran"]}
         for x in r["ran"]:
             if x["rcpt"] == b"trunc@h.test":
@@ -232,6 +243,7 @@ def run_lspawn_relay(ck, tree, thorough):
     ends = ["exit 0", "exit 100", "exit 111", "exit 1", "exit 99", "exit 112", "exit 255", "signal 9", "signal 11"]
     cases = [(o, e) for o in outs for e in (ends if thorough else ends[:4] + ends[7:8])]
     recs = []
+    lhung = []
     for ci, (o, e) in enumerate(cases):
         with open(os.path.join(scd, "hostile"), "wb") as f:
             f.write(e.encode() + b"\n" + o)
@@ -239,10 +251,25 @@ def run_lspawn_relay(ck, tree, thorough):
             f.write(b"exit 111\nmailbox busy\n")
         env = sandbox.shim_env(tree, ids=ids, extra={"VERIF_LOCAL_DIR": recd, "VERIF_LOCAL_SCRIPT_DIR": scd})
         inp = b"".join(bytes([dn]) + b"0/1234\0s@s.test\0" + l + b"@local.test\0" for dn, l in ((1, b"hostile"), (2, b"plain")))
-        p = subprocess.run([tree.bin("qmail-lspawn"), "./Mailbox"], input=inp, stdout=subprocess.PIPE, stderr=subprocess.PIPE, env=env, cwd=tree.root, timeout=60)
-        out = p.stdout
+        out = None
+        for tmo in ((20,) if lhung else (60, 120)):
+            p = subprocess.Popen([tree.bin("qmail-lspawn"), "./Mailbox"], stdin=subprocess.PIPE, stdout=subprocess.PIPE, stderr=subprocess.PIPE, env=env, cwd=tree.root)
+            try:
+                out, err = p.communicate(inp, timeout=tmo)
+                break
+            except subprocess.TimeoutExpired:
+                # still there long after the end of its commands: once more with twice the time, then what it did send is judged
+                p.kill()
+                out, err = p.communicate()
+                hung = True
+        else:
+            if lhung:
+                ck.cov["lspawn_runs_skipped_after_a_confirmed_hang"] = ck.cov.get("lspawn_runs_skipped_after_a_confirmed_hang", 0) + 1
+                continue
+            lhung.append(ci)
+            log("C18: qmail-lspawn did not finish run %d within 60 s and again within 120 s; judging what it sent" % ci)
         if len(out) < 1:
-            raise Infra("qmail-lspawn wrote nothing: %r" % p.stderr[:300])
+            raise Infra("qmail-lspawn wrote nothing: %r" % err[:300])
         if c11_util.MARK_FAIL in out:
             raise Infra("the stand-in qmail-local failed: %r" % out[:200])
         frames = repframe.Framer().feed(0, out[1:])
